@@ -83,6 +83,7 @@ fn main() {
     let Some(id) = args.first() else { usage() };
     let rest = &args[1..];
     let code = match id.as_str() {
+        "C04" => go(props::c04::C04, rest),
         "C05" => go(props::c05::C05, rest),
         "C06" => go(props::c06::C06, rest),
         "C07" => go(props::c07::C07, rest),
